@@ -25,7 +25,9 @@ Readings (weakest reasonable; documented in spec/Suppr.tla):
     after the last old member; offset_after(m) may be read as the manual says or as the code does (next member's offset);
   * a change without any insertion is not forbidden to be hidden by an insertion-range section (the statement lists removal,
     shrinking, insertion outside all ranges);
-  * insertion ranges constrain struct changes only; `name` shadows the patterns of a [suppress_type] section.
+  * insertion ranges constrain struct changes only; `name` shadows the patterns of a [suppress_type] section;
+  * offset_after(last member) is offset + size of the member's *type* in the code (a bit-field's storage unit), offset + width
+    by the manual: the declarative range accepts both.
 """
 import os, threading
 import vf, campaign
@@ -34,6 +36,11 @@ from checks import _suppr as S
 MALFORMED = ["(", "a[", "*a", "a{"]     # a pattern cannot *start* with an INI delimiter: `x = \\[` is not read as the string "[" (INI layer, C25/C39)
 STRATA = [("pattern", (2,), 1, 8, 8), ("name+ranges", (1, 9, 10), 2, 120, 9), ("patterns+kind", (2, 3, 4), 2, 60, 4),
           ("name+kind+path+loc", (1, 4, 5, 6), 2, 60, 4), ("all", tuple(range(1, 11)), 3, 120, 5)]     # name, fields, odds, generated, used per pair
+
+
+def cprog_base_bits(types, member):
+    t = types[member["t"] - 1]
+    return S.cprog.BASES[t["id"]][1] * 8 if t["k"] == "base" else 32
 
 
 def mapping(case, lay_old, lay_new, sname):
@@ -95,6 +102,12 @@ def main():
         if not lo or not ln or sname not in lo or sname not in ln:
             return [("discard", "layout-probe-failed")]
         old, new = lo[sname], ln[sname]
+        # size = the bits a member occupies (measured); tsize = the size of its declared type (differs for a bit-field: the model
+        # gives bit-fields a base type, whose size the compiler's sizeof cannot be asked for through the member)
+        for lay, sfx in ((old, ""), (new, "2")):
+            ty = case["types" + sfx][mut["ty"] - 1]
+            for mem, mm in zip(lay["members"], ty["m"]):
+                mem["tsize"] = cprog_base_bits(case["types" + sfx], mm) if mm["bw"] else mem["size"]
         # a member dropped and another one put at the same offset is reported by libabigail as one *changed* member
         # (class_or_union_diff folds them): not a plain removal / insertion -- cannot happen with a single mutation
         types = []
